@@ -201,9 +201,182 @@ fn run_repeat(ctx: &mut Ctx, opts: &[&str], job: &mut u64) {
     }
 }
 
+/// SAME-PARITY PAIRS: two different frames of one aircraft whose last 24 bits are equal (their data parts differ
+/// by a multiple of the generator). Fed back to back in ONE run they must give the table they give one by one:
+/// nothing may take the parity field for an identity of the whole frame.
+fn same_parity_differences(nbits: u32) -> Vec<u128> {
+    let g: u128 = 0x1FF_F409;
+    let room = nbits - 24 - 5; // data bits below the five format bits
+    let mut v = vec![];
+    for m in 1u128..8 {
+        let mut s = 0;
+        while (128 - (g * m).leading_zeros()) + s <= room {
+            v.push(((g * m) << s) << 24);
+            s += if nbits == 56 { 1 } else { 5 };
+        }
+    }
+    v
+}
+
+fn same_parity_case(cfg: &Cfg, warm: bool, f1: &crate::frames::Frame, d: u128) -> (bool, String, String) {
+    use crate::engine::explore::{Act, Action, apply};
+    let f2 = crate::frames::Frame { v: f1.v ^ d, nbits: f1.nbits };
+    let (l1, l2) = (f1.hex().into_bytes(), f2.hex().into_bytes());
+    let init = if warm { warm_init(cfg) } else { vec![] };
+    let (_, s1) = apply(cfg, &init, &Action { name: "f1".into(), act: Act::Line(l1.clone()) });
+    let (_, want) = apply(cfg, &s1, &Action { name: "f2".into(), act: Act::Line(l2.clone()) });
+    let mut lines: Vec<Vec<u8>> = if warm { warm_lines() } else { vec![] };
+    lines.push(l1);
+    lines.push(l2);
+    let t = crate::snap::new_table();
+    let o = crate::run::run_file(cfg, &crate::run::join_lines(&lines), &t);
+    let got = crate::snap::snapshot(&t);
+    let d = got.iter().zip(want.iter()).filter(|(a, b)| a != b).map(|(g, w)| crate::snap::diff_fields(w, g).join("; ")).collect::<Vec<_>>().join(" | ");
+    (o.is_ok() && got == want, f2.hex(), d)
+}
+
+fn same_parity_bases() -> Vec<(&'static str, crate::frames::Frame)> {
+    use crate::frames;
+    let a = rowmodel::ADDR[0];
+    vec![
+        ("DF4", frames::df4(a, frames::ac13_for_alt(31000))),
+        ("DF5", frames::df5(a, frames::id13_for_squawk(4521))),
+        ("DF0", frames::df0(a, frames::ac13_for_alt(18000))),
+        ("DF11", frames::df11(5, a, 0)),
+        ("DF16", frames::df16(a, frames::ac13_for_alt(18000), 0x30_0000_0000_0000)),
+        ("DF17 ident", frames::df17(5, a, frames::me_ident(4, 3, frames::callsign_codes("EIN45F")))),
+        ("DF20 BDS2,0", frames::df20(a, frames::ac13_for_alt(7000), frames::mb_bds20(frames::callsign_codes("DLH4XY")))),
+        ("DF21 BDS6,0", frames::df21(a, frames::id13_for_squawk(2101), rowmodel::valid_bds60(false))),
+    ]
+}
+
+fn run_same_parity(ctx: &mut Ctx, opts: &[&str], job: &mut u64) {
+    let cfg = Cfg::new(opts);
+    for (bi, (name, f1)) in same_parity_bases().iter().enumerate() {
+        for warm in [false, true] {
+            *job += 1;
+            if !ctx.mine(*job) {
+                continue;
+            }
+            for (di, d) in same_parity_differences(f1.nbits).into_iter().enumerate() {
+                let (ok, hex2, diff) = same_parity_case(&cfg, warm, f1, d);
+                ctx.eval();
+                ctx.count("same-parity-pair");
+                if !ok {
+                    let key = format!("{}{name} {} > {hex2}", if warm { "warm > " } else { "" }, f1.hex());
+                    ctx.violation(
+                        &format!("C11/same-parity/{}", cfg.label()),
+                        &key,
+                        || format!("[{key}] (two frames of one aircraft with the same last 24 bits) fed as one stream gives a different table than one by one: {diff}"),
+                        || json!({"same_parity": {"base": bi, "d": di, "warm": warm}, "cfg": cfg.opts}),
+                    );
+                }
+            }
+        }
+    }
+}
+
+/// TWINS: what an aircraft's frames do to its row does not depend on whether another aircraft - one or two
+/// address bits away, or far away - holds exactly the same values. A's lines (warm prefix, then every ordered
+/// pair of frames) are run alone, behind the twin's identical lines, and interleaved with them line by line;
+/// A's row must be the same in all three.
+fn readdress(line: &[u8], to: u32) -> Vec<u8> {
+    let Some(mut f) = std::str::from_utf8(line).ok().and_then(crate::frames::Frame::from_hex) else { return line.to_vec() };
+    match f.df() {
+        11 | 17 | 18 => {
+            f.set(9, 24, to as u64);
+            f.seal(0);
+        }
+        _ => {
+            f.seal(to);
+        }
+    }
+    f.hex().into_bytes()
+}
+
+const TWIN_XORS: [u32; 5] = [0x000001, 0x000003, 0x800000, 0x000100, 0x7A11C3];
+
+fn twin_case(cfg: &Cfg, a_lines: &[Vec<u8>], twin: u32, interleaved: bool) -> Option<String> {
+    let a = rowmodel::ADDR[0];
+    let row = |lines: &[Vec<u8>]| -> (crate::run::Outcome, Option<crate::snap::Snap>) {
+        let t = crate::snap::new_table();
+        let o = crate::run::run_file(cfg, &crate::run::join_lines(lines), &t);
+        (o, crate::snap::snapshot(&t).into_iter().find(|r| r.key == a))
+    };
+    let (o1, alone) = row(a_lines);
+    let b_lines: Vec<Vec<u8>> = a_lines.iter().map(|l| readdress(l, twin)).collect();
+    let mut both: Vec<Vec<u8>> = vec![];
+    if interleaved {
+        for (x, y) in b_lines.iter().zip(a_lines.iter()) {
+            both.push(x.clone());
+            both.push(y.clone());
+        }
+    } else {
+        both.extend(b_lines);
+        both.extend(a_lines.iter().cloned());
+    }
+    let (o2, with_twin) = row(&both);
+    if o1.is_ok() && o2.is_ok() && alone == with_twin {
+        return None;
+    }
+    Some(match (&alone, &with_twin) {
+        (Some(x), Some(y)) => crate::snap::diff_fields(x, y).join("; "),
+        _ => format!("reader {} / {}; row alone present: {}, with the twin: {}", o1.label(), o2.label(), alone.is_some(), with_twin.is_some()),
+    })
+}
+
+fn run_twins(ctx: &mut Ctx, opts: &[&str], job: &mut u64) {
+    use crate::engine::explore::Act;
+    let cfg = Cfg::new(opts);
+    let acts = rowmodel::aircraft_actions("A", rowmodel::ADDR[0]);
+    let line = |i: usize| match &acts[i].act {
+        Act::Line(l) => l.clone(),
+        _ => unreachable!(),
+    };
+    for ai in 0..acts.len() {
+        *job += 1;
+        if !ctx.mine(*job) {
+            continue;
+        }
+        for bi in 0..acts.len() {
+            for (wi, warm) in [false, true].iter().enumerate() {
+                let mut a_lines: Vec<Vec<u8>> = if *warm { warm_lines() } else { vec![] };
+                a_lines.push(line(ai));
+                a_lines.push(line(bi));
+                // the frame that decides is also presented twice (the first presentation may create the row)
+                a_lines.push(line(bi));
+                for (xi, x) in TWIN_XORS.iter().enumerate() {
+                    for interleaved in [false, true] {
+                        if (ai + bi + xi + wi) % 2 == 1 && interleaved {
+                            continue;
+                        }
+                        ctx.eval();
+                        ctx.count("twin");
+                        if let Some(d) = twin_case(&cfg, &a_lines, rowmodel::ADDR[0] ^ x, interleaved) {
+                            let key = format!("{}{} > {} x2, twin {:06X}{}", if *warm { "warm > " } else { "" }, acts[ai].name, acts[bi].name, rowmodel::ADDR[0] ^ x, if interleaved { " interleaved" } else { " first" });
+                            ctx.violation(
+                                &format!("C11/TWIN/{}", cfg.label()),
+                                &key,
+                                || format!("[{key}]: the row of {:06X} differs from what the same frames give when no other aircraft holds the same values: {d}", rowmodel::ADDR[0]),
+                                || json!({"twin": {"a": ai, "b": bi, "warm": warm, "x": xi, "interleaved": interleaved}, "cfg": cfg.opts}),
+                            );
+                        }
+                    }
+                }
+            }
+        }
+    }
+}
+
 fn run(ctx: &mut Ctx) {
     squitterator::set_observer_coords_from_str(rowmodel::OBSERVER_STR);
     let mut rjob = 500_000u64;
+    for opts in configs() {
+        run_twins(ctx, &opts, &mut rjob);
+    }
+    for opts in configs() {
+        run_same_parity(ctx, &opts, &mut rjob);
+    }
     for opts in configs() {
         run_repeat(ctx, &opts, &mut rjob);
     }
@@ -235,6 +408,41 @@ fn replay(ctx: &mut Ctx, case: &Value) {
     let n = case.pointer("/extra/naircraft").and_then(|x| x.as_u64()).unwrap_or(2) as usize;
     let depth = case.pointer("/extra/depth").and_then(|x| x.as_u64()).unwrap_or(3) as usize;
     let path: Vec<usize> = case.get("path").and_then(|p| p.as_array()).map(|a| a.iter().filter_map(|x| x.as_u64().map(|v| v as usize)).collect()).unwrap_or_default();
+    if let Some(r) = case.get("twin") {
+        let g = |k: &str| r.get(k).and_then(|x| x.as_u64()).unwrap_or(0) as usize;
+        let warm = r.get("warm").and_then(|x| x.as_bool()).unwrap_or(false);
+        let interleaved = r.get("interleaved").and_then(|x| x.as_bool()).unwrap_or(false);
+        let acts = rowmodel::aircraft_actions("A", rowmodel::ADDR[0]);
+        let line = |i: usize| match &acts[i % acts.len()].act {
+            crate::engine::explore::Act::Line(l) => l.clone(),
+            _ => unreachable!(),
+        };
+        let mut a_lines: Vec<Vec<u8>> = if warm { warm_lines() } else { vec![] };
+        a_lines.push(line(g("a")));
+        a_lines.push(line(g("b")));
+        a_lines.push(line(g("b")));
+        let twin = rowmodel::ADDR[0] ^ TWIN_XORS[g("x") % TWIN_XORS.len()];
+        let d = twin_case(&cfg, &a_lines, twin, interleaved);
+        crate::run::say(&format!("{} line(s) of {:06X}, alone and with the same lines of the twin {twin:06X} ({}): {}", a_lines.len(), rowmodel::ADDR[0], if interleaved { "interleaved" } else { "first" }, d.clone().unwrap_or_else(|| "same row".into())));
+        if let Some(d) = d {
+            ctx.violation("C11/TWIN", "replay", || d, || case.clone());
+        }
+        return;
+    }
+    if let Some(r) = case.get("same_parity") {
+        let g = |k: &str| r.get(k).and_then(|x| x.as_u64()).unwrap_or(0) as usize;
+        let warm = r.get("warm").and_then(|x| x.as_bool()).unwrap_or(false);
+        let bases = same_parity_bases();
+        let (name, f1) = &bases[g("base") % bases.len()];
+        let ds = same_parity_differences(f1.nbits);
+        let d = ds[g("d") % ds.len()];
+        let (ok, hex2, diff) = same_parity_case(&cfg, warm, f1, d);
+        crate::run::say(&format!("{}{name} {} then {hex2} (same last 24 bits) in one run vs one by one: identical: {ok} {diff}", if warm { "warm > " } else { "" }, f1.hex()));
+        if !ok {
+            ctx.violation("C11/same-parity", "replay", || "continuous run differs from step by step".into(), || case.clone());
+        }
+        return;
+    }
     if let Some(r) = case.get("repeat") {
         let g = |k: &str| r.get(k).and_then(|x| x.as_u64()).unwrap_or(0) as usize;
         let warm = r.get("warm").and_then(|x| x.as_bool()).unwrap_or(false);
